@@ -80,6 +80,14 @@ def run(unit, em):
                 return False
             name = v['decl'].get('n') or '?'
             for s in uses:
+                if s['k'] in ('CXXMemberCallExpr', 'CallExpr') and s.get('inrepo') and unit.ty(s).strip() not in ('void', '') and s.get('const', s['k'] == 'CallExpr'):
+                    # a const query on the container's content whose answer is used (`findClassOf(i, head)`) reads it, it does not
+                    # take it over: the container may go on growing
+                    par = s.get('_p')
+                    while par is not None and par['k'] in ('ExprWithCleanups', 'ImplicitCastExpr', 'ParenExpr', 'MaterializeTemporaryExpr', 'CXXBindTemporaryExpr'):
+                        par = par.get('_p')
+                    if par is not None and par['k'] != 'CompoundStmt':
+                        continue
                 if s['k'] in ('CXXConstructExpr', 'CXXTemporaryObjectExpr'):
                     if refholders is None:
                         refholders = {}
